@@ -648,8 +648,8 @@ impl Envelope {
     /// assert!(result.is_err());
     /// ```
     pub fn extract_object_for_predicate<T: TryFrom<CBOR, Error = Error> + 'static>(&self, predicate: impl EnvelopeEncodable) -> Result<T> {
-        self.assertion_with_predicate(predicate)?
-            .extract_object()
+        self.object_for_predicate(predicate)?
+            .extract_subject()
     }
 
     /// Returns the object of the assertion with the given predicate decoded as
